@@ -34,7 +34,8 @@ func (c *wsConn) tryDelete(s *Subscription) {
 	}
 	refs[s.RID()] = rr
 
-	sent := s.IsSent()
+	// A deleted resource had been sent to the client as well
+	sent := s.IsSent() || s.state == stateDeleted
 	sentDiff := 0
 	if sent {
 		sentDiff = 1
